@@ -76,7 +76,7 @@ class SimThread:
         if sched.dead:
             self.state = DONE
             return
-        if sched.line_codes:
+        if sched.line_codes or sched.event_codes:
             sys.settrace(sched._tracer)
         try:
             self.result = self.target(*self.args, **self.kwargs)
@@ -137,6 +137,9 @@ class Scheduler:
         self.max_steps = max_steps
         self.line_cost = line_cost
         self.line_codes: set = set()
+        self.event_codes: dict = {}      # code object -> [(event name, "call" | "return", extract(frame, retval) -> dict | None)]
+        self.events: list = []
+        self.put_hook = None             # callable(queue, item) invoked when a Queue.put took effect
         self.choices: list[int] = []
         self.done_evt = _rt.Event()
         self.wedge_info = None
@@ -398,9 +401,49 @@ class Scheduler:
         self.block(("advance", dt), dt)
         self.settle()
 
+    # ------------------------------------------------------------------ event recording (trace validation)
+    def emit(self, name, **fields):
+        """Append an event to the run's totally ordered event log (one baton: no two threads run at once)."""
+        me = self.cur
+        rec = {"e": name, "th": me.name if me is not None else "?", "t": round(self.now, 6)}
+        rec.update(fields)
+        self.events.append(rec)
+
+    def _event_tracer_for(self, specs, lines):
+        def local(frame, event, arg):
+            if event == "line" and lines and not self.dead:
+                if self.cur is not None and self.cur.os_thread is _rt.current_thread():
+                    self.yield_point("line")
+            elif event == "return" and not self.dead:
+                for name, on, extract in specs:
+                    if on == "return":
+                        try:
+                            f = extract(frame, arg) if extract else {}
+                        except Exception as exc:  # noqa: BLE001
+                            f = {"extract_error": repr(exc)}
+                        if f is not None:
+                            self.emit(name, **f)
+            return local
+        return local
+
     # ------------------------------------------------------------------ line tracing
     def _tracer(self, frame, event, arg):
-        if event == "call" and frame.f_code in self.line_codes:
+        if event != "call":
+            return None
+        code = frame.f_code
+        specs = self.event_codes.get(code)
+        if specs:
+            if not self.dead:
+                for name, on, extract in specs:
+                    if on == "call":
+                        try:
+                            f = extract(frame, None) if extract else {}
+                        except Exception as exc:  # noqa: BLE001
+                            f = {"extract_error": repr(exc)}
+                        if f is not None:
+                            self.emit(name, **f)
+            return self._event_tracer_for(specs, code in self.line_codes)
+        if code in self.line_codes:
             return self._line_tracer
         return None
 
@@ -413,8 +456,11 @@ class Scheduler:
 
 def run(main, *, seed=0, policy="fifo", switch_prob=0.2, script=None, max_vtime=100000.0,
         max_steps=5_000_000, line_funcs=(), wall_timeout=120.0, randint=None, line_cost=1e-4,
-        pct_depth=2, pct_horizon=150, wake_lag=None):
-    """Run `main(sched)` as the main simulated thread; returns the Scheduler (see .outcome)."""
+        pct_depth=2, pct_horizon=150, wake_lag=None, event_funcs=()):
+    """Run `main(sched)` as the main simulated thread; returns the Scheduler (see .outcome).
+
+    event_funcs: [(function, event name, "call" | "return", extract)]: an event is appended to sched.events when the function
+    is entered / returns (extract(frame, retval) gives the event's fields, None suppresses the event)."""
     global _current
     if _current is not None:
         raise SimError("nested simulation")
@@ -428,6 +474,11 @@ def run(main, *, seed=0, policy="fifo", switch_prob=0.2, script=None, max_vtime=
         if code is None:
             raise SimError(f"no code object for {f!r}")
         sched.line_codes.add(code)
+    for f, name, on, extract in event_funcs:
+        code = getattr(f, "__code__", None) or getattr(getattr(f, "__func__", None), "__code__", None)
+        if code is None:
+            raise SimError(f"no code object for {f!r}")
+        sched.event_codes.setdefault(code, []).append((name, on, extract))
     _current = sched
     try:
         t = sched.spawn(main, args=(sched,), name="main")
@@ -785,6 +836,8 @@ class Queue:
         s = cur_sched()
         s.yield_point()
         self._items.append(item)
+        if s.put_hook is not None:
+            s.put_hook(self, item)          # event recording at the linearization point of the put
         for g in self._getters:
             s._wake(g)
         self._getters = []
